@@ -172,14 +172,10 @@ theorem C07_sound_jws (e : Jws.Env) (ci : ChainInfo) (c : Content)
         · left; exact mustSub l h'
         · right; exact h'
 
-/-- **C07 (JWS, every critical label names a header that is there)**: each entry of the signed
-    `crit` array — whether it names an extended attribute or one of the specification's own
-    headers — is the name of a member of the protected header -/
-theorem C07_crit_present_jws (e : Jws.Env) (ci : ChainInfo) (c : Content)
-    (hv : wrapRead false ci (Jws.content e) = .val c) :
+/-- the format-level reader alone already guarantees it -/
+theorem crit_present_of_content (e : Jws.Env) (c : Content) (hinner : Jws.content e = .val c) :
     ∃ ms h, Jws.membersOf e.prot = some ms ∧ Jws.decodeHdr ms {} = some h ∧
       ∀ l ∈ h.crit, l ∈ ms.map (·.key) := by
-  obtain ⟨_, hinner, hval⟩ := wrapRead_inv _ _ _ _ hv
   obtain ⟨ms, h, alg, a1, a2, a3, _, _, a6⟩ := content_inv e c hinner
   refine ⟨ms, h, a1, a2, ?_⟩
   obtain ⟨p1, p2, p3, _⟩ := decodeHdr_provenance ms {} h a2
@@ -233,6 +229,17 @@ theorem C07_crit_present_jws (e : Jws.Env) (ci : ChainInfo) (c : Content)
         · cases h'
     · obtain ⟨m, hm, rfl⟩ := List.mem_map.mp h'
       exact List.mem_map.mpr ⟨m, extMembers_subset ms m hm, rfl⟩
+
+
+/-- **C07 (JWS, every critical label names a header that is there)**: each entry of the signed
+    `crit` array — whether it names an extended attribute or one of the specification's own
+    headers — is the name of a member of the protected header -/
+theorem C07_crit_present_jws (e : Jws.Env) (ci : ChainInfo) (c : Content)
+    (hv : wrapRead false ci (Jws.content e) = .val c) :
+    ∃ ms h, Jws.membersOf e.prot = some ms ∧ Jws.decodeHdr ms {} = some h ∧
+      ∀ l ∈ h.crit, l ∈ ms.map (·.key) := by
+  obtain ⟨_, hinner, _⟩ := wrapRead_inv _ _ _ _ hv
+  exact crit_present_of_content e c hinner
 
 /-- **C07 (verify implies content)**: a successful verification implies content extraction
     succeeds with an identical result — both formats -/
